@@ -235,9 +235,9 @@ func c07Root(p c07p) func() {
 		go runScript(1, first)
 		go runScript(2, second)
 		if p.gate != "" {
-			wg.Add(1)
+			// not waited for: a history may make fewer held calls than there are tokens, and the
+			// releaser then stays parked on its next hand-over until the execution ends
 			go func() {
-				defer wg.Done()
 				for i := 0; i < p.tokens; i++ {
 					gate <- struct{}{}
 				}
@@ -296,7 +296,7 @@ func init() {
 							first = strings.ReplaceAll(strings.ReplaceAll(first, "C", "D"), "B", "C")
 						}
 						for _, gate := range []string{"CreateFile", "Update"} {
-							for _, tokens := range []int{1, 2, 3} {
+							for _, tokens := range []int{2, 3} {
 								ps = append(ps, c07p{rows: rows, second: second, gate: gate, ib: 1, first: first, tokens: tokens})
 							}
 						}
@@ -307,8 +307,8 @@ func init() {
 		var out []Scenario
 		for _, p := range ps {
 			s := Scenario{Prop: "C07", Name: p.name(), Root: c07Root(p), Horizon: time.Second, Sched: 1}
-			if tier == "thorough" {
-				s.Sched = 2
+			if tier == "thorough" && (p.first == "" || p.first == "A F B F") {
+				s.Sched = 2 // the long scripted histories stay at one preemption
 			}
 			out = append(out, s)
 		}
